@@ -68,22 +68,24 @@ theorem rel_appendManifest {p : PState} (h : Rel p) (e : Edit) (s' : State) (c' 
     · intro x hx
       have hx' : x ∈ p.d.wals := hx
       rcases hcase with ⟨_, h2, _⟩ | ⟨_, h2, _⟩
-      · rcases h.others x hx' with h1 | h1 | h1
+      · rcases h.others x hx' with h1 | h1 | h1 | h1
         · exact Or.inl (by rw [hwal]; exact h1)
         · exact Or.inr (Or.inl (by rw [h2]; exact h1))
-        · exact Or.inr (Or.inr (by simpa [Ctx.w0, h2, hwal] using h1))
-      · rcases h.others x hx' with h1 | h1 | h1
+        · exact Or.inr (Or.inr (Or.inl (by simpa [Ctx.w0, h2, hwal] using h1)))
+        · exact Or.inr (Or.inr (Or.inr h1))
+      · rcases h.others x hx' with h1 | h1 | h1 | h1
         · exact Or.inl (by rw [hwal]; exact h1)
-        · right; right
+        · right; right; left
           rcases h.walImm with ⟨ha, _⟩ | ⟨wi, _, _, hwi, _, hlt, _, _⟩
           · rw [ha] at h1; cases h1
           · rw [hwi] at h1; injection h1 with h1
             simp [Ctx.w0, h2, hwal]; omega
-        · right; right
+        · right; right; left
           simp [Ctx.w0, h2, hwal]; omega
+        · exact Or.inr (Or.inr (Or.inr h1))
     · intro x hx
       have hx' : x ∈ p.d.wals := hx
-      show x.1 ≤ c'.wal
+      show x.1 ≤ c'.wal ∨ x.2 = []
       rw [hwal]; exact h.walMax x hx'
   refine ⟨?_, hR⟩
   obtain ⟨r, hr, hl⟩ := rel_reads h
